@@ -8,7 +8,12 @@
    _, ok := m[k]              set_has m k
    len(m)                     set_len m
    m == nil                   set_is_nil m
-   for k := range m           fold over set_keys m (any order: see C07_addset / C07_removeset) *)
+   for k := range m           fold over set_keys m (any order: see C07_addset / C07_removeset)
+
+   Locally built slices are [option (list T)] with None = Go's nil slice:
+   make([]T, n) / make([]T, 0, c)   sl_make zero n          r[i] = x       sl_set r i x
+   append(r, x) / append(r, xs...)  sl_append / sl_append_all    len(r)    sl_len r
+   r == nil                         sl_is_nil r             range r / r... sl_items r        *)
 From Coq Require Import List Bool Arith.
 From GT Require Import SetModel.
 Import ListNotations.
@@ -25,6 +30,24 @@ Section Prims.
   Definition set_len (m : sset T) : nat := length (elems m).
   Definition set_is_nil (m : sset T) : bool := is_nil m.
   Definition set_keys (m : sset T) : list T := elems m.
+
+  Definition sl_items (r : option (list T)) : list T := match r with Some l => l | None => [] end.
+  Definition sl_make (zero : T) (n : nat) : option (list T) := Some (repeat zero n).
+  Definition sl_len (r : option (list T)) : nat := length (sl_items r).
+  Definition sl_is_nil (r : option (list T)) : bool := match r with None => true | Some _ => false end.
+  Fixpoint list_upd (l : list T) (i : nat) (x : T) : list T :=
+    match l, i with
+    | [], _ => []
+    | _ :: r, O => x :: r
+    | y :: r, S j => y :: list_upd r j x
+    end.
+  Definition sl_set (r : option (list T)) (i : nat) (x : T) : option (list T) :=
+    match r with Some l => Some (list_upd l i x) | None => None end.
+  Definition sl_append (r : option (list T)) (x : T) : option (list T) := Some (sl_items r ++ [x]).
+  Definition sl_append_all (r : option (list T)) (xs : list T) : option (list T) :=
+    match r, xs with None, [] => None | _, _ => Some (sl_items r ++ xs) end.
 End Prims.
+Arguments sl_items {T}. Arguments sl_make {T}. Arguments sl_len {T}. Arguments sl_is_nil {T}.
+Arguments list_upd {T}. Arguments sl_set {T}. Arguments sl_append {T}. Arguments sl_append_all {T}.
 Arguments mk_empty {T}. Arguments set_put {T}. Arguments set_del {T}. Arguments set_has {T}.
 Arguments set_len {T}. Arguments set_is_nil {T}. Arguments set_keys {T}.
